@@ -11,6 +11,7 @@
    frames n ps = hdr(enc n p0) enc n p0  hdr(enc (n+1) p1) enc (n+1) p1 ...
    futs c = the writes still pending in call stacks below the coder (in order).            *)
 From YV Require Import Common.Tac C12.C12Chain C11.C11Model C11.C11Proofs C11.C11Inst.
+From YV Require Import C11.C11HsModel C11.C11HsProofs C11.C11HsInst.
 From Coq Require Import Permutation.
 
 Section C11.
@@ -88,6 +89,98 @@ Theorem C11_no_deadlock : forall opss c t th,
   exists t', exec c (t', false) <> None.
 Proof. exact (no_deadlock11_thm data encode enc hdr upper). Qed.
 
+(* ------------------------------------------------------------------------------------------------
+   Handshake side (C11/C11HsModel.v): senders racing the Noise handshake worker.
+
+   Chain: layers >= 6 -> coder 5 -> WANoiseProtocol.send 4 (raises unless the state is transport; else
+   nonce += 1, encrypt) -> stream.write_segment 3 (enqueue) -> noise write 2 (dequeue, under noise.lock)
+   -> segments 1 -> network 0.  Shared protocol state hst (false = handshake, true = transport).
+   reach_h: any schedule; the step of thread t raises iff it is a call of node 4 while hst = false (hfail) --
+   the raising thread unwinds, every toLower releases its lock, the operation's result is false.
+   entry_h h: thread h is the handshake worker -- any number of write_segment operations entering at node 3
+   (NOT through the coder's lock), then optionally `finish` = (4, Flip) which sets hst := true, then any
+   sends entering at a layer >= coder (replies produced while it flushes the incoming buffer); every other
+   thread is a sender with any list of sends entering at a layer >= coder.  Operations may START in either
+   state and be in progress when the state flips.
+   belowh th = innermost frame is WANoiseProtocol.send or lower (the lone `finish` frame excepted).
+   hsw = the handshake segments in the order they were handed to the stream (ghost).
+   pendh wexpandh th = the socket writes still pending in th's call stack ([] for a raising thread).
+   okp o rs = the plaintexts of those operations of o whose result in rs is true, flattened through the
+   layers above the noise layer.                                                                    *)
+Notation bodyh := (bodyh data encode enc hdr upper).
+Notation reach_h := (reach_h data encode enc hdr upper).
+Notation hexec := (hexec data encode enc hdr upper).
+
+(* Whoever is below the coder holds the coder's lock (transport state) or is the handshake worker
+   (handshake state); hence at most one thread is ever below the coder -- also across the flip. *)
+Theorem C11_hs_below_owner : forall h opss c t th,
+  entry_h data h opss -> reach_h opss c -> nth_error (thr c) t = Some th -> belowh data th ->
+  (hst (sh c) = true /\ holds th 5 /\ locks c 5 = Some t) \/ (hst (sh c) = false /\ t = h).
+Proof. exact (hs_below_owner_thm data encode enc hdr upper). Qed.
+
+Theorem C11_hs_serialised : forall h opss c t1 t2 th1 th2,
+  entry_h data h opss -> reach_h opss c ->
+  nth_error (thr c) t1 = Some th1 -> nth_error (thr c) t2 = Some th2 ->
+  belowh data th1 -> belowh data th2 -> t1 = t2.
+Proof. exact (hs_serialised_thm data encode enc hdr upper). Qed.
+
+(* In every reachable state the socket has received a prefix of
+   [handshake segments, framed] ++ [transport frames with nonces 0,1,2,... in encryption order];
+   the missing suffix is exactly the pending writes of the one thread below the coder. *)
+Theorem C11_hs_frames_whole : forall h opss c,
+  entry_h data h opss -> reach_h opss c ->
+  hwire (sh c) ++ futsh data hdr c = hsframes data hdr (hsw (sh c)) ++ hframes data enc hdr 0 (hsent (sh c)) /\
+  hctr (sh c) = length (hsent (sh c)) /\
+  (forall t th, nth_error (thr c) t = Some th -> ~ belowh data th ->
+                pendh data data (wexpandh data hdr) th = []) /\
+  (forall t th, nth_error (thr c) t = Some th -> belowh data th ->
+                futsh data hdr c = pendh data data (wexpandh data hdr) th).
+Proof. exact (hs_frames_whole_thm data encode enc hdr upper). Qed.
+
+(* Whenever nobody is below the coder: handshake segments first, then whole frames, the j-th encrypted with
+   nonce j -- the strict in-order peer decrypts every one of them. *)
+Theorem C11_hs_counter_order : forall h opss c,
+  entry_h data h opss -> reach_h opss c ->
+  (forall t th, nth_error (thr c) t = Some th -> ~ belowh data th) ->
+  hwire (sh c) = hsframes data hdr (hsw (sh c)) ++ hframes data enc hdr 0 (hsent (sh c)).
+Proof. exact (hs_counter_order_thm data encode enc hdr upper). Qed.
+
+(* Before the flip nothing has been encrypted and the wire holds handshake segments only. *)
+Theorem C11_hs_handshake_first : forall h opss c,
+  entry_h data h opss -> reach_h opss c -> hst (sh c) = false ->
+  hsent (sh c) = [] /\ hctr (sh c) = 0 /\ hwire (sh c) ++ futsh data hdr c = hsframes data hdr (hsw (sh c)).
+Proof. exact (hs_handshake_first_thm data encode enc hdr upper). Qed.
+
+(* A send raises exactly at WANoiseProtocol.send outside the transport state; the raising step changes neither
+   the shared state (nonce, queue, wire) nor the lock table; in transport state nothing raises. *)
+Theorem C11_hs_raise : forall c t c',
+  hexec c t = Some c' ->
+  (hfail c t = true -> hst (sh c) = false /\ sh c' = sh c /\ locks c' = locks c /\
+                       exists th, nth_error (thr c) t = Some th /\ next_call th = Some 4) /\
+  (hst (sh c) = true -> hfail c t = false).
+Proof. exact (hs_raise_thm data encode enc hdr upper). Qed.
+
+(* At termination: the plaintexts encrypted are, as a multiset, exactly those of the sends that RETURNED
+   normally (each flattened through the layers above; exactly one per send when every layer forwards one
+   stanza), a send that raised transmitted nothing, nothing is lost or duplicated, every operation has a
+   result, and the wire is the handshake segments followed by the whole frames of `sent` in nonce order. *)
+Theorem C11_hs_exactly_once : forall h opss c,
+  entry_h data h opss -> reach_h opss c ->
+  (forall t th, nth_error (thr c) t = Some th -> finished th) ->
+  Permutation (hsent (sh c))
+              (concat (map (fun p => okp data encode upper (fst p) (results (snd p))) (combine opss (thr c)))) /\
+  hwire (sh c) = hsframes data hdr (hsw (sh c)) ++ hframes data enc hdr 0 (hsent (sh c)) /\
+  length (thr c) = length opss /\
+  (forall t o th, nth_error opss t = Some o -> nth_error (thr c) t = Some th ->
+                  length (results th) = length o).
+Proof. exact (hs_exactly_once_thm data encode enc hdr upper). Qed.
+
+(* Raising sends release their locks, locks are taken in one global order: no deadlock. *)
+Theorem C11_hs_no_deadlock : forall opss c t th,
+  reach_h opss c -> nth_error (thr c) t = Some th -> (stack th <> [] \/ ops th <> []) ->
+  exists t', hexec c t' <> None.
+Proof. exact (hs_no_deadlock_thm data encode enc hdr upper). Qed.
+
 End C11.
 Print Assumptions C11_serialised.
 Print Assumptions C11_below_holds_coder_lock.
@@ -96,6 +189,14 @@ Print Assumptions C11_dangling_header.
 Print Assumptions C11_counter_order.
 Print Assumptions C11_exactly_once.
 Print Assumptions C11_no_deadlock.
+Print Assumptions C11_hs_below_owner.
+Print Assumptions C11_hs_serialised.
+Print Assumptions C11_hs_frames_whole.
+Print Assumptions C11_hs_counter_order.
+Print Assumptions C11_hs_handshake_first.
+Print Assumptions C11_hs_raise.
+Print Assumptions C11_hs_exactly_once.
+Print Assumptions C11_hs_no_deadlock.
 
 (* Positive control / why the entry hypothesis is needed: two threads entering directly at the
    segments layer (not through the coder's lock) can put two headers next to each other. *)
@@ -104,3 +205,19 @@ Theorem C11_unprotected_refuted :
   wire (sh bad_cfg) = [hdr_n 7; hdr_n 8] /\ ~ entry_ok' nat bad_ops.
 Proof. exact unprotected_refuted_thm. Qed.
 Print Assumptions C11_unprotected_refuted.
+
+(* Why the handshake worker must not become a transport sender outside the coder's lock (the shape of a
+   "deferred send" queue flushed from the protocol-state callback): model variant body_d (C11HsInst.v) where
+   send() in handshake state parks the plaintext instead of raising and `finish` flushes the parked plaintexts
+   with WANoiseProtocol.send on the worker.  (a) every send returned normally, yet the wire carries nonce 1
+   before nonce 0; (b) a send returned normally, nothing was ever transmitted for it. *)
+Theorem C11_deferred_flush_refuted :
+  (reach_nf (msg nat) dstate has_lockh rorh body_d d0 ooo_ops ooo_cfg /\
+   (forall t th, nth_error (thr ooo_cfg) t = Some th -> finished th /\ Forall (fun r => r = true) (results th)) /\
+   dsent (sh ooo_cfg) = [7; 8] /\
+   dwire (sh ooo_cfg) = [hdr_h (enc_h 1 8); enc_h 1 8; hdr_h (enc_h 0 7); enc_h 0 7]) /\
+  (reach_nf (msg nat) dstate has_lockh rorh body_d d0 lost_ops lost_cfg /\
+   (forall t th, nth_error (thr lost_cfg) t = Some th -> finished th /\ Forall (fun r => r = true) (results th)) /\
+   dsent (sh lost_cfg) = [] /\ dwire (sh lost_cfg) = [] /\ dpark (sh lost_cfg) = [7]).
+Proof. exact deferred_flush_refuted_thm. Qed.
+Print Assumptions C11_deferred_flush_refuted.
